@@ -284,6 +284,8 @@ def bounded(tier, seed):
                 opts.pop('sender', None)
             if rnd.random() < 0.5:
                 fields['sender'] = ':1.99'            # a bus daemon adds the sender to every message
+            if rnd.random() < 0.3:
+                fields['unix_fds'] = rnd.choice([1, 2, 3])     # a message carrying descriptors declares how many (parsed here without them)
             flags = rnd.choice([0, 1, 2, 3])
             serial = rnd.choice([1, 77, 2**32 - 1])
             le = rnd.random() < 0.5
